@@ -339,6 +339,30 @@ PLANS = {
         "sample": lambda o: {"km0": o["km0"], "steps": o["steps"][:3], "chosen_fetcher": o.get("chosen"), "read": (o["reads"][0] if o["reads"] else None)},
         "assumptions": ["TLC, Json module, harness recording (key map copied after every step; operand values copied inside the probe operator)"],
     },
+    "C08": {
+        "mc": {"quick": [{"module": "CompileHistory", "cfg": "cfg/MCCompile.quick.cfg"}],
+               "thorough": [{"module": "CompileHistory", "cfg": "cfg/MCCompile.thorough.cfg"}]},
+        "drive": {"quick": [{"args": ["compile", "-for", "sequential", "-n", "1500", "-seed", "{seed}"]},
+                            {"args": ["compile", "-for", "concurrent", "-n", "1500", "-seed", "{seed}"], "race": True}],
+                  "thorough": [{"args": ["compile", "-for", "sequential", "-n", "40000", "-seed", "{seed}"]},
+                               {"args": ["compile", "-for", "concurrent", "-n", "20000", "-seed", "{seed}"], "race": True, "timeout": 3400}]},
+        "judge": {"module": "JudgeCompile", "cfg": "JudgeCompile.cfg"},
+        "replay_args": ["compile", "-n", "100", "-seed", "1"],
+        "engine": "histories",
+        "rule": "kind history: one history = 3..10 operations on up to four real configs (contents over constants, variables incl. "
+                "undefined-variable mode, operators, costs, options present / absent, stateless list): Compile of one of ten "
+                "sources (directive combinations: none, optimize:false, single optimizers off/on, later-overrides-earlier; "
+                "unknown names; stateless calls), CopyConfig / ExtendConf followed by mutation of every component of the copy "
+                "and an append to the source's stateless list, caller mutation; deep snapshot of the config before and after "
+                "every call, program fingerprint = Dump + DumpTable + results; judged: snapshot unchanged by Compile, same "
+                "(contents, source) => same fingerprint across the whole history, mutating a copy never changes its source; "
+                "kind concurrent: 8 goroutines x 12 compilations on one shared config vs the sequential baseline, built with "
+                "-race (a race report with an access inside onheap/eval is a violation); non-trivial = a compile after an "
+                "earlier compile on the same config, a copy/extend step, or a concurrent run",
+        "sample": lambda o: {"kind": o["kind"], "steps": o.get("steps", [])[:4], "runs": o.get("runs", [])[:3]},
+        "assumptions": ["Go race detector (linux/amd64 runtime present)", "snapshots render every exported field of Config; operators by code pointer",
+                        "TLC, Json module, harness recording"],
+    },
 }
 
 ENGINES = [
@@ -360,6 +384,6 @@ ENGINES.append({"name": "generator", "path": "spec/Generator.tla, MCGen.tla, Jud
                 "serves_properties": ["C20"],
                 "kind_free_text": "GenerateRandomExpr as a consumer of a draw script; model-checked over scripts; real runs with recorded draws replayed through the model"})
 ENGINES.append({"name": "histories", "path": "spec/Registry.tla, MCReg.tla, JudgeReg.tla, CompileHistory.tla, Concurrent.tla + harness/fam_reg.go, fam_compile.go, fam_conc.go",
-                "serves_properties": ["C11"],
+                "serves_properties": ["C08", "C11"],
                 "kind_free_text": "histories and schedules: registration histories, compile histories on shared configs, concurrent evaluations on a shared program (gated schedules + Go race detector)"})
 NOT_APPLICABLE = {}
